@@ -61,6 +61,49 @@ fn zero_len_dir(ctx: &mut Ctx, case: u64) {
         }
         ctx.case(hash_u64s(&[gen::entries_fp(&bad), at as u64, u64::from(codec)]), true);
     }
+    // a length varint that is a non-zero multiple of 2^32 denotes length 0 once narrowed to the 32-bit field:
+    // the parser must refuse it (or at least never hand out an entry of length 0)
+    for k in [1u64 << 32, 2 << 32, 1 << 40] {
+        let at = rng.usize(0, n - 1);
+        let mut plain = Vec::new();
+        R::put_varint(&mut plain, n as u64);
+        let mut last = 0u64;
+        for e in &list {
+            R::put_varint(&mut plain, e.tile_id - last);
+            last = e.tile_id;
+        }
+        for e in &list {
+            R::put_varint(&mut plain, u64::from(e.run_length));
+        }
+        for (j, e) in list.iter().enumerate() {
+            R::put_varint(&mut plain, if j == at { k } else { u64::from(e.length) });
+        }
+        for e in &list {
+            R::put_varint(&mut plain, e.offset + 1);
+        }
+        let raw = R::codec_compress(codec, &plain, &R::CodecParams::plain()).expect("codec");
+        let mat = json!({"entries": n, "length_varint": k, "at": at, "codec": R::codec_name(codec)});
+        match guard(|| Directory::from_bytes(&raw, comp)) {
+            Ok(Err(_)) => ctx.count("parser_rejections"),
+            Ok(Ok(d)) => {
+                if (&d).into_iter().any(|e| e.length == 0) {
+                    ctx.violation("Directory::from_bytes", "accepts-zero-length", "parser hands out an entry of length 0 (length varint k*2^32)", &format!("entry {at} of {n}"), mat.clone());
+                }
+            }
+            Err(p) => ctx.panic("Directory::from_bytes", &p, mat.clone()),
+        }
+        let mut ar = AInst::new(raw.clone());
+        let rl = raw.len() as u64;
+        match guard(|| block_on(Directory::from_async_reader(&mut ar, rl, comp))) {
+            Ok(Err(_)) => ctx.count("parser_rejections_async"),
+            Ok(Ok(d)) => {
+                if (&d).into_iter().any(|e| e.length == 0) {
+                    ctx.violation("Directory::from_async_reader", "accepts-zero-length", "parser hands out an entry of length 0 (length varint k*2^32)", &format!("entry {at} of {n}"), mat.clone());
+                }
+            }
+            Err(p) => ctx.panic("Directory::from_async_reader", &p, mat.clone()),
+        }
+    }
     // control: the unmodified list is accepted (so a rejection above is about the zero length)
     let d = Directory::from(gen::to_lib_entries(&list));
     let mut out = Vec::new();
@@ -151,7 +194,14 @@ fn empty_add(ctx: &mut Ctx, case: u64) {
 
 fn metadata_shapes(ctx: &mut Ctx, case: u64) {
     let mut rng = ctx.rng("c19.meta", case);
-    let shapes: [(&str, &[u8]); 9] = [
+    let shapes: [(&str, &[u8]); 16] = [
+        ("string holding an object", b"\"{}\""),
+        ("string holding an object with members", b"\"{\\\"name\\\":\\\"demo\\\"}\""),
+        ("doubly wrapped string", b"\"\\\"{}\\\"\""),
+        ("array holding an object", b"[{}]"),
+        ("one-digit number", b"7"),
+        ("zero", b"0"),
+        ("array of arrays", b"[[],[{}]]"),
         ("null", b"null"),
         ("true", b"true"),
         ("false", b"false"),
@@ -174,6 +224,9 @@ fn metadata_shapes(ctx: &mut Ctx, case: u64) {
                 offset_style: 0,
                 raw_metadata: Some(raw.to_vec()),
                 dup_contents: false,
+                prefix_entries: false,
+                leaf_entries: None,
+                align_gzip_leaves: false,
             };
             let f = gen::gen_foreign(&mut rng, &o);
             let mat = json!({"metadata": name, "codec": R::codec_name(codec)});
@@ -202,6 +255,9 @@ fn metadata_shapes(ctx: &mut Ctx, case: u64) {
             offset_style: 0,
             raw_metadata: Some(b"{\"ok\":true}".to_vec()),
             dup_contents: false,
+                prefix_entries: false,
+                leaf_entries: None,
+                align_gzip_leaves: false,
         };
         let f = gen::gen_foreign(&mut rng, &o);
         if PMTiles::from_bytes(f.bytes).is_err() {
@@ -255,6 +311,9 @@ fn unknown_compression(ctx: &mut Ctx, case: u64) {
                 offset_style: 0,
                 raw_metadata: None,
                 dup_contents: false,
+                prefix_entries: false,
+                leaf_entries: None,
+                align_gzip_leaves: false,
             };
             let mut f = gen::gen_foreign(&mut rng, &o);
             f.bytes[97] = 0;
